@@ -356,8 +356,12 @@ func parent(prop, tier string) int {
 		"assumptions": assumptions, "wall_s": time.Since(start).Seconds(), "violations": len(unknown),
 	}
 	b, _ := json.MarshalIndent(ev, "", " ")
-	os.MkdirAll(filepath.Join(verifDir, "evidence"), 0o755)
-	if err := os.WriteFile(filepath.Join(verifDir, "evidence", prop+".json"), b, 0o644); err != nil {
+	evDir := filepath.Join(verifDir, "evidence")
+	if v := os.Getenv("VERIF_EVIDENCE_DIR"); v != "" {
+		evDir = v // evaluation of seeded changes must not overwrite the evidence of the real tree
+	}
+	os.MkdirAll(evDir, 0o755)
+	if err := os.WriteFile(filepath.Join(evDir, prop+".json"), b, 0o644); err != nil {
 		fmt.Fprintln(os.Stderr, "evidence write failed:", err)
 		if exit == 0 {
 			exit = 2
